@@ -574,7 +574,73 @@ Section Final.
     intro H. destruct (Inv_run vh cap Hinj ops) as (_ & _ & Hn & _). fold (members_of cap ops) in Hn. rewrite H in Hn.
     destruct (nodes (run vh cap ops)) as [|n t]; [reflexivity|]. exfalso. apply (Hn n). left. reflexivity.
   Qed.
+  (* repeated lookups of one key (whatever its inner hash evaluates to) agree *)
+  Lemma key_repeatable hf ops k i1 i2 :
+    get_key hf (run vh cap ops) k i1 = get_key hf (run vh cap ops) k i2.
+  Proof. apply key_same_text. reflexivity. Qed.
+
+  (* a removed node answers no lookup, whatever was looked up before the removal *)
+  Lemma after_remove ops x i n : get (run vh cap (ops ++ [Remove n])) x i <> Ok (Some n).
+  Proof.
+    intro Hg. destruct (total (ops ++ [Remove n]) x i) as (_ & Hm & _). destruct (Hm n Hg) as (r & Hin & _).
+    rewrite members_snoc in Hin. simpl in Hin. unfold m_remove in Hin. apply aremove_In in Hin. tauto.
+  Qed.
+
+  Lemma key_after_remove hf ops k i n : get_key hf (run vh cap (ops ++ [Remove n])) k i <> Ok (Some n).
+  Proof. rewrite get_key_eq. apply after_remove. Qed.
 End Final.
+
+(* ---------- a ring built from a configuration (cache.New / kv.NewStore: AddWithWeight(node_i, weight_i) in order) ---------- *)
+Fixpoint config_from (cap top i : nat) (ws : list nat) : list op :=
+  match ws with
+  | [] => []
+  | w :: r => Add i (weight_replicas cap w top) :: config_from cap top (S i) r
+  end.
+Definition config_ops (cap top : nat) (ws : list nat) : list op := config_from cap top 0 ws.
+
+Lemma config_preserve cap top ws : forall i0 m n r, In (n, r) m -> (n < i0)%nat ->
+  In (n, r) (fold_left (sstep cap) (map abs_op (config_from cap top i0 ws)) m).
+Proof.
+  induction ws as [|w t IH]; simpl; intros i0 m n r Hin Hlt; [assumption|].
+  apply IH; [|lia]. unfold m_add, m_remove. right. apply aremove_In. split; [assumption|lia].
+Qed.
+
+Lemma config_members_from cap top ws : forall i0 m j w, nth_error ws j = Some w ->
+  In ((i0 + j)%nat, Nat.min (weight_replicas cap w top) cap)
+     (fold_left (sstep cap) (map abs_op (config_from cap top i0 ws)) m).
+Proof.
+  induction ws as [|w0 t IH]; intros i0 m [|j] w Hn; simpl in Hn; try discriminate.
+  - inversion Hn; subst. simpl. rewrite Nat.add_0_r. apply config_preserve; [|lia]. left. reflexivity.
+  - simpl. replace (i0 + S j)%nat with (S i0 + j)%nat by lia. apply IH. assumption.
+Qed.
+
+(* every configured node keeps ITS weight, wherever weight-0 entries sit in the configuration *)
+Lemma config_members cap top ws i w : nth_error ws i = Some w ->
+  In (i, Nat.min (weight_replicas cap w top) cap) (members_of cap (config_ops cap top ws)).
+Proof. intro H. apply (config_members_from cap top ws 0%nat [] i w H). Qed.
+
+Lemma nodup_fst_fun (m : members) n r r' : NoDup (map fst m) -> In (n, r) m -> In (n, r') m -> r = r'.
+Proof.
+  induction m as [|[a b] t IH]; simpl; intros Hnd H1 H2; [tauto|]. inversion Hnd as [|? ? Hni Hnd']; subst.
+  destruct H1 as [E1|H1], H2 as [E2|H2].
+  - congruence.
+  - inversion E1; subst. exfalso. apply Hni. apply in_map_iff. exists (n, r'). split; [reflexivity|assumption].
+  - inversion E2; subst. exfalso. apply Hni. apply in_map_iff. exists (n, r). split; [reflexivity|assumption].
+  - apply IH; assumption.
+Qed.
+
+(* ... and a drained (weight 0) entry receives no key, wherever it sits *)
+Lemma config_zero_no_keys vh cap (Hinj : inj vh cap) top ws i x inner : nth_error ws i = Some 0%nat ->
+  get (run vh cap (config_ops cap top ws)) x inner <> Ok (Some i).
+Proof.
+  intros H Hg. destruct (total vh cap Hinj (config_ops cap top ws) x inner) as (_ & Hm & _).
+  destruct (Hm i Hg) as (r & Hin & Hr). pose proof (config_members cap top ws i 0%nat H) as H0.
+  assert (E : weight_replicas cap 0 top = 0%nat) by (unfold weight_replicas; rewrite Nat.mul_0_r; destruct top; reflexivity).
+  rewrite E in H0. simpl in H0.
+  destruct (Inv_run vh cap Hinj (config_ops cap top ws)) as (_ & _ & _ & Hnd & _).
+  fold (members_of cap (config_ops cap top ws)) in Hnd.
+  pose proof (nodup_fst_fun _ _ _ _ Hnd Hin H0). lia.
+Qed.
 
 (* non-vacuity: a hash satisfying the hypothesis, and a history on which a key moves *)
 Definition demo_vh (n i : nat) : N := N.of_nat (n * 10 + i * 37 mod 10 + 100 * i).
